@@ -27,7 +27,8 @@ Record imp_case := mkImpCase {
   ic_graph : list (string * list string);         (* origin -> origins imported (only files that exist) *)
   ic_target_origin : string;
   ic_class : list (string * nat);                 (* origin -> 1 local, 2 site-packages, 3 stdlib *)
-  ic_excluded_origins : list string }.            (* origins whose module matches an --exclude-import pattern, or rattr itself *)
+  ic_excluded_origins : list string;              (* origins whose module matches an --exclude-import pattern, or rattr itself *)
+  ic_no_source : list string }.                   (* origins that are not existing files *)
 
 Fixpoint tlookup {A} (t : list (string * A)) (k : string) : option A :=
   match t with [] => None | (k', v) :: r => if String.eqb k k' then Some v else tlookup r k end.
@@ -52,7 +53,7 @@ Section Case.
   Definition irs : list modl := map to_modl (ic_imports k).
   Definition fuel : nat := 2 + fold_left (fun n m => n + List.length (mi_ctx m)) (ic_imports k) 0.
 
-  Definition res_imp := resolve_import module_of bl pip std fl fp fs fuel irs.
+  Definition res_imp := resolve_import module_of bl pip std fl fp fs fuel irs [].
 
   (* ---------- call resolutions ---------- *)
   Definition res_matches (r : string * string * option (string * string)) : bool :=
@@ -60,6 +61,7 @@ Section Case.
     match res_imp n q, obs with
     | RTarget mn ln _, Some (om, on) => String.eqb mn om && String.eqb ln on
     | RNone, None => true
+    | RImportError, None => true
     | _, _ => false
     end.
 
@@ -70,7 +72,7 @@ Section Case.
     match t with
     | Some (mkSym nm (KImport q)) =>
       match res_imp nm q with
-      | RImportError | RFuel => Some (mkSym "!!raise" KFunc)
+      | RFuel => Some (mkSym "!!raise" KFunc)
       | _ => link_target module_of bl pip std fl fp fs fuel irs owner t
       end
     | _ => link_target module_of bl pip std fl fp fs fuel irs owner t
@@ -112,7 +114,7 @@ Section Case.
     2 + List.length (imports_of_ctx (mi_ctx (ic_target k))) + fold_left (fun n m => n + List.length (mi_ctx m)) (ic_imports k) 0.
 
   Definition predicted_modules : option (list (string * string)) :=
-    analysed module_of origin_of_mod bl pip std fl fp fs imports_in bfs_fuel (imports_of_ctx (mi_ctx (ic_target k))).
+    analysed module_of origin_of_mod bl pip std fl fp fs imports_in (fun o => ends_with ".py" o && negb (mem o (ic_no_source k))) bfs_fuel (imports_of_ctx (mi_ctx (ic_target k))).
 
   Definition modules_match : bool :=
     match predicted_modules with
